@@ -552,6 +552,10 @@ class MiniInterp:
         if isinstance(obj, tuple) and obj and obj[0] == "external":
             return ("external", f"{obj[1]}.{attr}")
         t = type(obj)
+        if self.hook and t not in SAFE_METHODS:
+            r = self.hook(self, "getattr", obj, attr, None, node, fi)
+            if r is not NotImplemented:
+                return r
         if t in SAFE_METHODS and attr in SAFE_METHODS[t]:
             return ("native", obj, attr)
         raise Unknown(f"attribute {attr} of {t.__name__}")
@@ -691,6 +695,10 @@ class MiniInterp:
                 return [x for _, _, x in keyed]
             if name == "reversed":
                 return list(reversed(self.iterate(args[0])))
+            if name == "filter":
+                return _Iter([x for x in self.iterate(args[1]) if self.truth(x if args[0] is None else self.apply(args[0], [x]))])
+            if name == "map":
+                return _Iter([self.apply(args[0], [x]) for x in self.iterate(args[1])])
             if name == "iter":
                 return _Iter(self.iterate(args[0]))
             if name == "next":
